@@ -293,7 +293,11 @@ func (t *Table) get(offset uint64) storage.Entry {
 
 	vlen := binary.BigEndian.Uint32(t.memory[offset : offset+4])
 	offset += 4
-	e.SetValue(t.memory[offset : offset+uint64(vlen)])
+	// Create a copy of the value. The caller may use it after the lock that protects
+	// the table has been released, and the table's memory is reused after compaction.
+	value := make([]byte, vlen)
+	copy(value, t.memory[offset:offset+uint64(vlen)])
+	e.SetValue(value)
 	return e
 }
 
@@ -334,7 +338,11 @@ func (t *Table) Get(hkey uint64) (storage.Entry, error) {
 
 	vlen := binary.BigEndian.Uint32(t.memory[offset : offset+4])
 	offset += 4
-	e.SetValue(t.memory[offset : offset+uint64(vlen)])
+	// Create a copy of the value. The caller may use it after the lock that protects
+	// the table has been released, and the table's memory is reused after compaction.
+	value := make([]byte, vlen)
+	copy(value, t.memory[offset:offset+uint64(vlen)])
+	e.SetValue(value)
 
 	return e, nil
 }
